@@ -13,6 +13,7 @@ import (
 	"sort"
 	"strconv"
 	"strings"
+	"sync"
 	"time"
 
 	"github.com/influxdata/influxdb/models"
@@ -35,7 +36,7 @@ type H struct {
 const DB, RP = "db0", "rp0"
 
 // TagKeys is the tag vocabulary of the generators (a read of the tagless series must exclude the others).
-var TagKeys = []string{"host"}
+var TagKeys = []string{"host", "region"}
 
 const ShardID = 1
 
@@ -279,16 +280,34 @@ func (h *H) Compact(mode string, i, j int) string {
 
 // Delete removes [tmin,tmax] of the series of a measurement (optionally one tag pair).
 func (h *H) Delete(meas, tagPred string, tmin, tmax int64) string {
-	cond := fmt.Sprintf("time >= %d AND time <= %d", tmin, tmax)
+	return h.DeleteB(meas, tagPred, &tmin, &tmax)
+}
+
+// DeleteB: nil bounds are open ends (no time condition on that side).
+func (h *H) DeleteB(meas, tagPred string, tmin, tmax *int64) string {
+	var conds []string
+	if tmin != nil {
+		conds = append(conds, fmt.Sprintf("time >= %d", *tmin))
+	}
+	if tmax != nil {
+		conds = append(conds, fmt.Sprintf("time <= %d", *tmax))
+	}
 	if tagPred != "-" {
 		p := strings.SplitN(tagPred, "=", 2)
-		cond = fmt.Sprintf("%s = '%s' AND %s", influxql.QuoteIdent(p[0]), p[1], cond)
+		conds = append([]string{fmt.Sprintf("%s = '%s'", influxql.QuoteIdent(p[0]), p[1])}, conds...)
 	}
-	expr, err := influxql.ParseExpr(cond)
-	if err != nil {
-		return "bad-op"
+	var expr influxql.Expr
+	if len(conds) > 0 {
+		var err error
+		expr, err = influxql.ParseExpr(strings.Join(conds, " AND "))
+		if err != nil {
+			return "bad-op"
+		}
 	}
-	src := []influxql.Source{&influxql.Measurement{Database: DB, RetentionPolicy: RP, Name: meas}}
+	var src []influxql.Source
+	if meas != "*" {
+		src = []influxql.Source{&influxql.Measurement{Database: DB, RetentionPolicy: RP, Name: meas}}
+	}
 	if err := h.Store.DeleteSeries(DB, src, expr); err != nil {
 		return "err:" + strings.ReplaceAll(err.Error(), " ", "_")
 	}
@@ -515,6 +534,204 @@ func (h *H) Read(meas, tags, field string, tmin, tmax int64, asc bool) string {
 	return ra
 }
 
+// canonSeries renders a series key as meas|k=v,k=v (or meas|-).
+func canonSeries(key []byte) string {
+	name, tags := models.ParseKeyBytes(key)
+	var kv []string
+	for _, t := range tags {
+		kv = append(kv, string(t.Key)+"="+string(t.Value))
+	}
+	if len(kv) == 0 {
+		return string(name) + "|-"
+	}
+	return string(name) + "|" + strings.Join(kv, ",")
+}
+
+func csv(l []string) string {
+	if len(l) == 0 {
+		return "-"
+	}
+	return strings.Join(l, ";")
+}
+
+// Series lists the series known to the shard's index.
+func (h *H) Series() string {
+	sh := h.Shard()
+	idx, err := sh.Index()
+	if err != nil {
+		return "err:" + err.Error()
+	}
+	sf, err := sh.SeriesFile()
+	if err != nil {
+		return "err:" + err.Error()
+	}
+	is := tsdb.IndexSet{Indexes: []tsdb.Index{idx}, SeriesFile: sf}
+	names, err := is.MeasurementNamesByExpr(nil, nil)
+	if err != nil {
+		return "err:" + strings.ReplaceAll(err.Error(), " ", "_")
+	}
+	var out []string
+	for _, n := range names {
+		keys, err := is.MeasurementSeriesKeysByExpr(n, nil)
+		if err != nil {
+			return "err:" + strings.ReplaceAll(err.Error(), " ", "_")
+		}
+		for _, k := range keys {
+			out = append(out, canonSeries(k))
+		}
+	}
+	sort.Strings(out)
+	return csv(out)
+}
+
+func (h *H) Measurements() string {
+	names, err := h.Store.MeasurementNames(context.Background(), nil, DB, "", nil)
+	if err != nil {
+		return "err:" + strings.ReplaceAll(err.Error(), " ", "_")
+	}
+	var out []string
+	for _, n := range names {
+		out = append(out, string(n))
+	}
+	sort.Strings(out)
+	return csv(out)
+}
+
+func (h *H) TagKeys(meas string) string {
+	cond, _ := influxql.ParseExpr(fmt.Sprintf("_name = '%s'", meas))
+	tks, err := h.Store.TagKeys(context.Background(), nil, []uint64{ShardID}, cond)
+	if err != nil {
+		return "err:" + strings.ReplaceAll(err.Error(), " ", "_")
+	}
+	var out []string
+	for _, tk := range tks {
+		if tk.Measurement == meas {
+			out = append(out, tk.Keys...)
+		}
+	}
+	sort.Strings(out)
+	return csv(out)
+}
+
+func (h *H) TagValues(meas, key string) string {
+	cond, _ := influxql.ParseExpr(fmt.Sprintf("_name = '%s' AND _tagKey = '%s'", meas, key))
+	tvs, err := h.Store.TagValues(context.Background(), nil, []uint64{ShardID}, cond)
+	if err != nil {
+		return "err:" + strings.ReplaceAll(err.Error(), " ", "_")
+	}
+	var out []string
+	for _, tv := range tvs {
+		if tv.Measurement != meas {
+			continue
+		}
+		for _, kv := range tv.Values {
+			if kv.Key == key {
+				out = append(out, kv.Value)
+			}
+		}
+	}
+	sort.Strings(out)
+	return csv(out)
+}
+
+func (h *H) DropMeasurement(meas string) string {
+	if err := h.Store.DeleteMeasurement(DB, meas); err != nil {
+		return "err:" + strings.ReplaceAll(err.Error(), " ", "_")
+	}
+	return "ok"
+}
+
+// ---- schedule control through the engine's verif points -----------------------------------
+
+type Gate struct {
+	Reached chan struct{}
+	Release chan struct{}
+}
+
+var (
+	gateMu sync.Mutex
+	gates  = map[string]*Gate{} // "<point>|<shard dir prefix>" -> gate (one shot)
+)
+
+func init() {
+	tsm1.VerifSetPointFn(func(name, path string) {
+		gateMu.Lock()
+		var g *Gate
+		for k, v := range gates {
+			p := strings.SplitN(k, "|", 2)
+			if p[0] == name && strings.HasPrefix(path, p[1]) {
+				g = v
+				delete(gates, k)
+				break
+			}
+		}
+		gateMu.Unlock()
+		if g != nil {
+			close(g.Reached)
+			<-g.Release
+		}
+	})
+}
+
+// Arm makes the next arrival of this shard at the named engine step wait until released.
+func (h *H) Arm(point string) *Gate {
+	g := &Gate{Reached: make(chan struct{}), Release: make(chan struct{})}
+	gateMu.Lock()
+	gates[point+"|"+h.Dir] = g
+	gateMu.Unlock()
+	return g
+}
+
+func (h *H) disarm(point string) {
+	gateMu.Lock()
+	delete(gates, point+"|"+h.Dir)
+	gateMu.Unlock()
+}
+
+// SnapDelete runs a delete while a cache snapshot is in flight: the snapshot has been taken
+// and its file written, but not yet installed (the window the delete path leaves open on
+// purpose, see Engine.DeleteSeriesRangeWithPredicate).
+func (h *H) SnapDelete(meas, pred string, lo, hi *int64) string {
+	e := h.Engine()
+	if e == nil {
+		return "err:no_engine"
+	}
+	g := h.Arm("snapshot.written")
+	done := make(chan error, 1)
+	go func() { done <- e.WriteSnapshot() }()
+	var res string
+	select {
+	case <-g.Reached:
+		dres := make(chan string, 1)
+		go func() { dres <- h.DeleteB(meas, pred, lo, hi) }()
+		select {
+		case res = <-dres: // the delete ran to completion inside the window
+			close(g.Release)
+		case <-time.After(300 * time.Millisecond):
+			// the delete waits for the snapshot (a legitimate way to close the window):
+			// let the snapshot finish, the delete must then complete
+			close(g.Release)
+			select {
+			case res = <-dres:
+			case <-time.After(30 * time.Second):
+				<-done
+				return "HANG:delete_never_completes_after_the_snapshot"
+			}
+		}
+		if err := <-done; err != nil {
+			return "err:snapshot:" + strings.ReplaceAll(err.Error(), " ", "_")
+		}
+	case err := <-done:
+		// nothing to snapshot: the delete runs alone
+		h.disarm("snapshot.written")
+		if err != nil {
+			return "err:snapshot:" + strings.ReplaceAll(err.Error(), " ", "_")
+		}
+		res = h.DeleteB(meas, pred, lo, hi)
+	}
+	return res
+}
+
 // Step executes one op line of the "shard" model.
 func (h *H) Step(op string) (out string) {
 	defer func() {
@@ -564,8 +781,30 @@ func (h *H) Step(op string) (out string) {
 			return "err:" + strings.ReplaceAll(err.Error(), " ", "_")
 		}
 		return "ok"
-	case "del":
-		return h.Delete(f[1], f[2], i64(f[3]), i64(f[4]))
+	case "del", "snapdel":
+		var lo, hi *int64
+		if f[3] != "-inf" {
+			v := i64(f[3])
+			lo = &v
+		}
+		if f[4] != "+inf" {
+			v := i64(f[4])
+			hi = &v
+		}
+		if f[0] == "snapdel" {
+			return h.SnapDelete(f[1], f[2], lo, hi)
+		}
+		return h.DeleteB(f[1], f[2], lo, hi)
+	case "dropm":
+		return h.DropMeasurement(f[1])
+	case "series":
+		return h.Series()
+	case "meas":
+		return h.Measurements()
+	case "tagkeys":
+		return h.TagKeys(f[1])
+	case "tagvals":
+		return h.TagValues(f[1], f[2])
 	case "read":
 		return h.Read(f[1], f[2], f[3], i64(f[4]), i64(f[5]), f[6] == "asc")
 	case "files":
